@@ -208,6 +208,24 @@ def programs(ctx):
         exp = b''.join(b'T' if x else b'F' for x in bits) + b';' + b''.join(b'1' if x else b'0' for x in bits) + b';' + b''.join(b'1' if x else b'0' for x in bits)
         src = '\n'.join(glob) + '\nempty @is_you() {\n  ' + '\n  '.join(loc + body) + '\n}\n'
         progs.append(('constants of different element types with equal values', src, exp, ['mixed', ln]))
+    # 6. every element of a constant (and a literal, and a mutable) array read with a CONSTANT index, in value contexts that depend on
+    #    the exact representation (bool elements must come out as a strict 0/1, bytes zero-extended, ints whole)
+    for n in range(24 if ctx.tier == 'quick' else 200):
+        ln = rng.choice([3, 7, 8, 9, 12, 17])
+        bits = [rng.random() < 0.6 for _ in range(ln)]
+        kind = rng.choice(['const bool[] a = %s;', 'bool[] a = %s;', 'const bool[] a = %s;'])
+        lit = '[' + ', '.join('true' if x else 'false' for x in bits) + ']'
+        glob = rng.random() < 0.5
+        decl = kind % lit
+        body, exp = [], b''
+        for i in range(ln):
+            x = bits[i]
+            body.append('write(a[%d] == true); write(a[%d] is int); write(not a[%d]); write([a[%d], false][0]); write((a[%d] is byte) is int + 1); write(a[%d] != a[0]); bool t%d = a[%d]; write(t%d is int); write(%s[%d]);'
+                        % (i, i, i, i, i, i, i, i, i, lit, i))
+            tf = lambda v: b'true' if v else b'false'
+            exp += tf(x) + (b'1' if x else b'0') + tf(not x) + tf(x) + (b'2' if x else b'1') + tf(x != bits[0]) + (b'1' if x else b'0') + tf(x)
+        src = (decl + '\n' if glob else '') + 'empty @is_you() {\n' + ('' if glob else '  ' + decl + '\n') + '  ' + '\n  '.join(body) + '\n}\n'
+        progs.append(('bool array elements at constant indices in value contexts', src, exp, ['boolconst', ln]))
     return progs
 
 
